@@ -14,9 +14,9 @@
 EXTENDS Backend, Json, IOUtils
 
 Rec == ndJsonDeserialize(IOEnv.TRACE)
-VARIABLES l, cur, judge, nsplit, nselect, nrej, ndrift
-vars == <<l, cur, judge, nsplit, nselect, nrej, ndrift>>
-TInit == l = 1 /\ cur = <<"", "">> /\ judge = FALSE /\ nsplit = 0 /\ nselect = 0 /\ nrej = 0 /\ ndrift = 0
+VARIABLES l, cur, judge, nsplit, nselect, npre, nrej, ndrift
+vars == <<l, cur, judge, nsplit, nselect, npre, nrej, ndrift>>
+TInit == l = 1 /\ cur = <<"", "">> /\ judge = FALSE /\ nsplit = 0 /\ nselect = 0 /\ npre = 0 /\ nrej = 0 /\ ndrift = 0
 Ev == Rec[l]
 Consume == l <= Len(Rec) /\ l' = l + 1
 
@@ -53,7 +53,18 @@ ShapeVerdict(e) ==
   ELSE "ok"
 
 Reset == /\ Consume /\ Ev.ev = "Reset" /\ cur' = <<Ev.id, Ev.dialect>> /\ judge' = (Ev.outcome = "sql")
-         /\ UNCHANGED <<nsplit, nselect, nrej, ndrift>>
+         /\ UNCHANGED <<nsplit, nselect, npre, nrej, ndrift>>
+\* preprocess: what became of each RQ transform (group-takes, appends), and where the Computes went
+PreEv ==
+  /\ Consume /\ Ev.ev = "Pre"
+  /\ IF ~judge THEN UNCHANGED <<npre, nrej, ndrift>>
+     ELSE LET v == PreVerdict(Ev.input, Ev.output) d == PreDrift(Ev.output) IN
+          /\ npre' = npre + 1
+          /\ nrej' = nrej + (IF v = "ok" THEN 0 ELSE 1)
+          /\ ndrift' = ndrift + (IF d THEN 1 ELSE 0)
+          /\ (v # "ok" => PrintT(<<"REJECT", cur[1], cur[2], "preprocess-" \o v, l, <<0, 0>>>>))
+          /\ (d => PrintT(<<"DRIFT", cur[1], cur[2], l, "reorder">>))
+  /\ UNCHANGED <<cur, judge, nsplit, nselect>>
 SplitEv ==
   /\ Consume /\ Ev.ev = "Split"
   /\ IF ~judge THEN UNCHANGED <<nsplit, nrej, ndrift>>
@@ -64,7 +75,7 @@ SplitEv ==
           /\ (v # "ok" => PrintT(<<"REJECT", cur[1], cur[2], v, l, FirstBadPair(Ev.atomic)>>))
           /\ (d => PrintT(<<"DRIFT", cur[1], cur[2], l, LET m == Split(Ev.input, Ev.output, DeclCx(Ev)) IN
                                  <<Ids(NonSel(m.atomic)), Len(m.preceding), m.atomic[1].cols, IF m.preceding = <<>> THEN <<>> ELSE m.preceding[Len(m.preceding)].cols>>>>))
-  /\ UNCHANGED <<cur, judge, nselect>>
+  /\ UNCHANGED <<cur, judge, nselect, npre>>
 SelectEv ==
   /\ Consume /\ Ev.ev = "Select"
   /\ IF ~judge THEN UNCHANGED <<nselect, nrej>>
@@ -72,10 +83,10 @@ SelectEv ==
           /\ nselect' = nselect + 1
           /\ nrej' = nrej + (IF v = "ok" THEN 0 ELSE 1)
           /\ (v # "ok" => PrintT(<<"REJECT", cur[1], cur[2], "assembly-" \o v, l, <<0, 0>>>>))
-  /\ UNCHANGED <<cur, judge, nsplit, ndrift>>
-End == Consume /\ Ev.ev = "End" /\ PrintT(<<"COUNTS", nsplit, nselect, nrej, ndrift>>) /\ UNCHANGED <<cur, judge, nsplit, nselect, nrej, ndrift>>
+  /\ UNCHANGED <<cur, judge, nsplit, npre, ndrift>>
+End == Consume /\ Ev.ev = "End" /\ PrintT(<<"COUNTS", nsplit, nselect, nrej, ndrift, npre>>) /\ UNCHANGED <<cur, judge, nsplit, nselect, npre, nrej, ndrift>>
 
-TNext == Reset \/ SplitEv \/ SelectEv \/ End
+TNext == Reset \/ PreEv \/ SplitEv \/ SelectEv \/ End
 TraceSpec == TInit /\ [][TNext]_vars
 TraceAccepted ==
   LET d == TLCGet("stats").diameter IN
